@@ -167,6 +167,18 @@ fn to_snake_case(mut str: &str) -> String {
     words.join("_")
 }
 
+/// The identifier of a generated method: a name that is a Rust keyword (`Type` -> `type`)
+/// becomes a raw identifier, the few keywords that cannot be raw get a trailing underscore.
+fn method_ident(name: &str) -> Ident {
+    match syn::parse_str::<Ident>(name) {
+        Ok(i) => i,
+        Err(_) => match name {
+            "self" | "super" | "crate" | "Self" => format_ident!("{}_", name),
+            _ => Ident::new_raw(name, Span::call_site()),
+        },
+    }
+}
+
 impl<'short, 'long: 'short> ToTokenStream<'short, 'long> for VStruct<'long> {
     fn to_tokenstream(
         &'long self,
@@ -334,7 +346,7 @@ fn varlink_to_rust(idl: &IDL, options: &GeneratorOptions, tosource: bool) -> Res
         let mut out_anot: Vec<TokenStream> = Vec::new();
 
         let call_name = Ident::new(&format!("Call_{}", t.name), Span::call_site());
-        let method_name = Ident::new(&to_snake_case(t.name), Span::call_site());
+        let method_name = method_ident(&to_snake_case(t.name));
         let varlink_method_name = format!("{}.{}", idl.name, t.name);
 
         generate_anon_struct(
